@@ -175,6 +175,9 @@ ANN_FORMS = {
     'wq_kw': [';w=', 'N:w', ';q=', 'N:q'],
     'free': [';m=', 'V:m'],
     'q_free': [';q=', 'N:q', ';lbl=', 'V:lbl'],
+    # user-defined symbols are case sensitive and stored as written
+    'free_uc': [';Mw=', 'V:Mw'],
+    'free_case': [';n=', 'V:n', ';N=', 'V:N'],
 }
 # numeric spellings: 'S' sign hole (+/-), 'D' digit hole, every other character literal
 NUM_FORMS = {'d': 'D', 'sd': 'SD', 'd.d': 'D.D', 'sd.d': 'SD.D', 'dd': 'DD', '.d': '.D', 'd.': 'D.',
